@@ -12,7 +12,7 @@ import (
 
 //vp:property C05
 //vp:set s 2 4
-//vp:bounds Basic scheme: header parsed or not (symbolic), user/password strings of <= s bytes, socket address empty/non-empty, backend: unreachable / RPC error / answers authenticated or not
+//vp:bounds Basic scheme: header parsed or not (symbolic), user/password strings of <= s bytes, socket address empty/non-empty, session identity fresh or already authenticated (same or another user name), backend: unreachable / RPC error / answers authenticated or not
 //vp:reach passed challenged error
 func VP_C05_basic() {
 	vpResetWeb()
@@ -29,6 +29,14 @@ func VP_C05_basic() {
 		vpAuthRes = &auth.AuthResponse{Authenticated: vpBool("backend-says-authenticated")}
 	}
 	id := identity.NewUser()
+	// the identity comes from the session cookie: it may belong to an earlier (e.g. OpenID) login
+	preAuth := vpBool("session-already-authenticated")
+	id.SetAuthenticated(preAuth)
+	if vpBool("session-user-is-the-basic-user") {
+		id.SetUserName(vpBasicUser)
+	} else {
+		id.SetUserName(vpString("session-user", n))
+	}
 	nextCalls := 0
 	var seen identity.Identity
 	next := func(w http.ResponseWriter, r *http.Request) {
@@ -56,7 +64,7 @@ func VP_C05_basic() {
 			vpReach("error")
 			vpAssert(w.status == 500, "otherwise-500")
 		}
-		vpAssert(!id.Authenticated(), "identity-not-marked-authenticated")
+		vpAssert(id.Authenticated() == preAuth, "refused-request-does-not-change-the-identity")
 	}
 	// completeness: confirmed credentials do reach the handler
 	if vpBasicOK && h.SocketAddress != "" && !vpBool("grpc-dial-fails") && vpAuthErr == nil && vpAuthRes != nil && vpAuthRes.Authenticated {
